@@ -291,7 +291,6 @@ class CallTracer:
         # from a function returning (or yielding) None. In the latter case, the
         # the last instruction that was executed should always be a return or a
         # yield.
-        typ = get_type(arg, max_typed_dict_size=self.max_typed_dict_size)
         last_opcode = frame.f_code.co_code[frame.f_lasti]
         trace = self.traces.get(frame)
         if trace is None:
@@ -302,11 +301,17 @@ class CallTracer:
         if last_opcode == YIELD_VALUE_OPCODE and not (thrown and arg is None):
             # A coroutine suspending on an `await` also executes YIELD_VALUE (3.11+); that is not a yield
             if not frame.f_code.co_flags & inspect.CO_COROUTINE:
-                trace.add_yield_type(typ)
+                trace.add_yield_type(
+                    get_type(arg, max_typed_dict_size=self.max_typed_dict_size)
+                )
         else:
-            if last_opcode in RETURN_OPCODES:
-                trace.return_type = typ
+            # The call is over. Forget it before collecting the return type: if that fails, the
+            # frame (and with it the call's locals) must not stay referenced by the tracer.
             del self.traces[frame]
+            if last_opcode in RETURN_OPCODES:
+                trace.return_type = get_type(
+                    arg, max_typed_dict_size=self.max_typed_dict_size
+                )
             self.logger.log(trace)
 
     def __call__(self, frame: FrameType, event: str, arg: Any) -> "CallTracer":
